@@ -125,6 +125,9 @@ func (this *code39Reader) DecodeRow(rowNumber int, row *gozxing.BitArray, hints 
 
 	if this.usingCheckDigit {
 		max := len(result) - 1
+		if max < 0 {
+			return nil, gozxing.NewNotFoundException("empty result")
+		}
 		total := 0
 		for i := 0; i < max; i++ {
 			total += strings.Index(code39AlphabetString, string(result[i]))
@@ -266,6 +269,9 @@ func code39DecodeExtended(encoded []byte) (string, error) {
 	for i := 0; i < length; i++ {
 		c := encoded[i]
 		if c == '+' || c == '$' || c == '%' || c == '/' {
+			if i >= length-1 {
+				return "", gozxing.NewFormatException("i=%d, length=%d", i, length)
+			}
 			next := encoded[i+1]
 			decodedChar := byte(0)
 			switch c {
